@@ -68,6 +68,10 @@ def run_impl(case):
     neg_in = np.array([fl(x) for x in case["neg"]], dtype=dt)
     T = np.array([fl(t) for t in case["thr"]], dtype=float).reshape(case["shape"])
     R = np.array([fl(t) for t in case["targets"]], dtype=float).reshape(case["shape"])
+    if len(case["shape"]) >= 2 and case["order_seed"] % 3 == 0:
+        T, R = np.asfortranarray(T), np.asfortranarray(R)        # same values, Fortran memory order
+    elif len(case["shape"]) >= 2 and case["order_seed"] % 3 == 1:
+        T = np.ascontiguousarray(np.moveaxis(T, 0, -1)).transpose(np.roll(np.arange(T.ndim), 1))   # non-contiguous view
     s = Scores(pos_in, neg_in, nb_easy_pos=case["ep"], nb_easy_neg=case["en"], score_class=case["sc"],
                equal_class=case["ec"], is_sorted=case["is_sorted"])
 
@@ -149,6 +153,15 @@ def run_impl(case):
     pw = results["pw:pw"]
     if pw.shape != tuple(case["pshape"]) + shp + (2, 2):
         prob.append(("shape", f"pointwise_cm: shape {pw.shape}, expected {tuple(case['pshape']) + shp + (2, 2)}"))
+    elif pw.size:
+        lab = np.array([1] * len(pos_in) + [0] * len(neg_in)).reshape(case["pshape"])
+        sca = np.concatenate([pos_in, neg_in]).astype(float).reshape(case["pshape"])
+        pwf = pw.reshape((lab.size, T.size, 2, 2))
+        for i, t in enumerate(T.reshape(-1)):
+            one = pointwise_cm(lab, sca, float(t), score_class=case["sc"], equal_class=case["ec"]).reshape((lab.size, 2, 2))
+            if not same(one, pwf[:, i]):
+                prob.append(("elementwise", f"pointwise_cm: slice for threshold element {i} differs from the scalar-threshold call"))
+                break
     after = snap()
     names = ["caller pos array", "caller neg array", "threshold array", "target array", "self.pos", "self.neg", "fields/dtypes/shapes"]
     for n_, b, a in zip(names, before, after):
